@@ -76,11 +76,93 @@ Verdict legend
 -/
 namespace WR.C15
 
-/-- reviewed allow-list for `WR.Gen.C15Globals.written`: (variable, why it is acceptable) -/
-def globalsAllowList : List (String × String) := [
-  ("text/hyphen.dictionariesCache",
+/-- reviewed allow-list for `WR.Gen.C15Globals.written`: (variable, declaration as written, why it
+is acceptable).  The declaration is part of the fact: changing WHAT the shared variable holds
+(e.g. a dictionary together with its per-render word cache) needs a new review. -/
+def globalsAllowList : List (String × String × String) := [
+  ("text/hyphen.dictionariesCache", "= map[string]hyphDicReference{…}",
    "cache of parsed hyphenation dictionaries, written in NewHyphener under dictionariesCacheLock (sync.Mutex); " ++
-   "the parsed dictionary is a pure function of the embedded file, so the cache is history independent")]
+   "a hyphDicReference (patterns + max length) is never written after parsing and is a pure function of the " ++
+   "embedded file; the word cache (hyphDic.cache) is NOT part of it: every Hyphener gets its own map")]
+
+/-- reviewed allow-list for `WR.Gen.C15Globals.uses`: every use, outside init(), of a package-level
+variable that can hold shared mutable state.  A new `value` use (the variable assigned to a field,
+passed on, returned: it escapes and can be written through the copy) or a new variable must be
+reviewed — this is how a process-wide cache handed to every render becomes visible. -/
+def usesAllowList : List (String × String) := [
+  ("css/parser.ColorKeywords index", "lookup / iteration in a table filled by its initialiser or init(); never written afterwards (no entry in `written`)"),
+  ("css/parser.badPairs index", "lookup / iteration in a table filled by its initialiser or init(); never written afterwards (no entry in `written`)"),
+  ("css/properties.FontSizeKeywords index", "lookup / iteration in a table filled by its initialiser or init(); never written afterwards (no entry in `written`)"),
+  ("css/properties.Inf value", "float constant"),
+  ("css/properties.LengthsToPixels index", "lookup / iteration in a table filled by its initialiser or init(); never written afterwards (no entry in `written`)"),
+  ("css/properties.PageSizes index", "lookup / iteration in a table filled by its initialiser or init(); never written afterwards (no entry in `written`)"),
+  ("css/properties.PropsFromNames index", "lookup / iteration in a table filled by its initialiser or init(); never written afterwards (no entry in `written`)"),
+  ("css/properties.TableWrapperBoxProperties range", "lookup / iteration in a table filled by its initialiser or init(); never written afterwards (no entry in `written`)"),
+  ("css/selector.errExpectedClosingParenthesis value", "error value: immutable"),
+  ("css/selector.errExpectedParenthesis value", "error value: immutable"),
+  ("css/selector.errUnmatchedParenthesis value", "error value: immutable"),
+  ("css/validation.ANGLETORADIANS index", "lookup / iteration in a table filled by its initialiser or init(); never written afterwards (no entry in `written`)"),
+  ("css/validation.AngleUnits index", "lookup / iteration in a table filled by its initialiser or init(); never written afterwards (no entry in `written`)"),
+  ("css/validation.ErrInvalidValue value", "error value: immutable"),
+  ("css/validation.LENGTHUNITS index", "lookup / iteration in a table filled by its initialiser or init(); never written afterwards (no entry in `written`)"),
+  ("css/validation.RESOLUTIONTODPPX index", "lookup / iteration in a table filled by its initialiser or init(); never written afterwards (no entry in `written`)"),
+  ("css/validation.allValidators index", "lookup / iteration in a table filled by its initialiser or init(); never written afterwards (no entry in `written`)"),
+  ("css/validation.attrFallbacks index", "lookup / iteration in a table filled by its initialiser or init(); never written afterwards (no entry in `written`)"),
+  ("css/validation.backgroundPositionsPercentages index", "lookup / iteration in a table filled by its initialiser or init(); never written afterwards (no entry in `written`)"),
+  ("css/validation.centerKeywordFakeToken value", "token / dimension value copied: immutable"),
+  ("css/validation.colon value", "token / dimension value copied: immutable"),
+  ("css/validation.contentQuoteKeywords index", "lookup / iteration in a table filled by its initialiser or init(); never written afterwards (no entry in `written`)"),
+  ("css/validation.counterStyleDescriptors index", "lookup / iteration in a table filled by its initialiser or init(); never written afterwards (no entry in `written`)"),
+  ("css/validation.couplesEastAsian value", "slice of keyword couples passed to parseFontVariant, which only reads it"),
+  ("css/validation.couplesLigatures value", "slice of keyword couples passed to parseFontVariant, which only reads it"),
+  ("css/validation.couplesNumeric value", "slice of keyword couples passed to parseFontVariant, which only reads it"),
+  ("css/validation.directionKeywords index", "lookup / iteration in a table filled by its initialiser or init(); never written afterwards (no entry in `written`)"),
+  ("css/validation.fiftyPercent value", "token / dimension value copied: immutable"),
+  ("css/validation.fontFaceDescriptors index", "lookup / iteration in a table filled by its initialiser or init(); never written afterwards (no entry in `written`)"),
+  ("css/validation.noneFakeToken value", "token / dimension value copied: immutable"),
+  ("css/validation.normalFakeToken value", "token / dimension value copied: immutable"),
+  ("css/validation.notPrintMedia index", "lookup / iteration in a table filled by its initialiser or init(); never written afterwards (no entry in `written`)"),
+  ("css/validation.proprietary index", "lookup / iteration in a table filled by its initialiser or init(); never written afterwards (no entry in `written`)"),
+  ("css/validation.unstable index", "lookup / iteration in a table filled by its initialiser or init(); never written afterwards (no entry in `written`)"),
+  ("css/validation.validatorsError index", "lookup / iteration in a table filled by its initialiser or init(); never written afterwards (no entry in `written`)"),
+  ("css/validation.zeroPercent value", "token / dimension value copied: immutable"),
+  ("html/boxes.TableFirstLetter value", "slice of unicode tables spread into unicode.In: read only"),
+  ("html/boxes.asciiToWide index", "lookup / iteration in a table filled by its initialiser or init(); never written afterwards (no entry in `written`)"),
+  ("html/boxes.htmlHandlers index", "lookup / iteration in a table filled by its initialiser or init(); never written afterwards (no entry in `written`)"),
+  ("html/boxes.styleMap index", "lookup / iteration in a table filled by its initialiser or init(); never written afterwards (no entry in `written`)"),
+  ("html/boxes.styleScores index", "lookup / iteration in a table filled by its initialiser or init(); never written afterwards (no entry in `written`)"),
+  ("html/boxes.transparent value", "colour value (struct copy)"),
+  ("html/layout.absoluteWidth value", "function value built once by handleMinMaxWidth/Height: immutable"),
+  ("html/layout.blockLevelWidth value", "function value built once by handleMinMaxWidth/Height: immutable"),
+  ("html/layout.blockReplacedWidth value", "function value built once by handleMinMaxWidth/Height: immutable"),
+  ("html/layout.floatWidth value", "function value built once by handleMinMaxWidth/Height: immutable"),
+  ("html/layout.inlineBlockWidth value", "function value built once by handleMinMaxWidth/Height: immutable"),
+  ("html/layout.pageHeight value", "function value built once by handleMinMaxWidth/Height: immutable"),
+  ("html/layout.pageWidth value", "function value built once by handleMinMaxWidth/Height: immutable"),
+  ("html/layout.replacedBoxHeight value", "function value built once by handleMinMaxWidth/Height: immutable"),
+  ("html/layout.replacedBoxWidth value", "function value built once by handleMinMaxWidth/Height: immutable"),
+  ("html/tree.borderWidthKeywords index", "lookup / iteration in a table filled by its initialiser or init(); never written afterwards (no entry in `written`)"),
+  ("html/tree.keywordsValues index", "lookup / iteration in a table filled by its initialiser or init(); never written afterwards (no entry in `written`)"),
+  ("html/tree.keywordsValues range", "lookup / iteration in a table filled by its initialiser or init(); never written afterwards (no entry in `written`)"),
+  ("html/tree.pseudoElements index", "lookup / iteration in a table filled by its initialiser or init(); never written afterwards (no entry in `written`)"),
+  ("svg.colorAttributes range", "lookup / iteration in a table filled by its initialiser or init(); never written afterwards (no entry in `written`)"),
+  ("svg.notInheritedAttributes index", "lookup / iteration in a table filled by its initialiser or init(); never written afterwards (no entry in `written`)"),
+  ("text.capsKeys index", "lookup / iteration in a table filled by its initialiser or init(); never written afterwards (no entry in `written`)"),
+  ("text.eastAsianKeys index", "lookup / iteration in a table filled by its initialiser or init(); never written afterwards (no entry in `written`)"),
+  ("text.fcStretch index", "lookup / iteration in a table filled by its initialiser or init(); never written afterwards (no entry in `written`)"),
+  ("text.fcStyle index", "lookup / iteration in a table filled by its initialiser or init(); never written afterwards (no entry in `written`)"),
+  ("text.fcWeight index", "lookup / iteration in a table filled by its initialiser or init(); never written afterwards (no entry in `written`)"),
+  ("text.langQuotes index", "lookup / iteration in a table filled by its initialiser or init(); never written afterwards (no entry in `written`)"),
+  ("text.langQuotesKeys range", "lookup / iteration in a table filled by its initialiser or init(); never written afterwards (no entry in `written`)"),
+  ("text.ligatureKeys index", "lookup / iteration in a table filled by its initialiser or init(); never written afterwards (no entry in `written`)"),
+  ("text.ligatureKeys range", "lookup / iteration in a table filled by its initialiser or init(); never written afterwards (no entry in `written`)"),
+  ("text.lstToISO index", "lookup / iteration in a table filled by its initialiser or init(); never written afterwards (no entry in `written`)"),
+  ("text.numericKeys index", "lookup / iteration in a table filled by its initialiser or init(); never written afterwards (no entry in `written`)"),
+  ("text/hyphen.dictionariesCache index", "lookup / iteration in a table filled by its initialiser or init(); never written afterwards (no entry in `written`)"),
+  ("text/hyphen.encodings index", "lookup / iteration in a table filled by its initialiser or init(); never written afterwards (no entry in `written`)"),
+  ("text/hyphen.languages index", "lookup / iteration in a table filled by its initialiser or init(); never written afterwards (no entry in `written`)"),
+  ("utils.VersionString value", "string"),
+  ("utils.W3CDateReGroupsIndexes index", "lookup / iteration in a table filled by its initialiser or init(); never written afterwards (no entry in `written`)")]
 
 /-- reviewed allow-list for `WR.Gen.C15Globals.methodCalls`: (pkg.Var.Method, verdict) -/
 def methodCallsAllowList : List (String × String) := [
